@@ -84,14 +84,6 @@ def register(w):
         c.ens("result != None")
         c.may_raise("Exception")
 
-    @w.contract(BI + "_resolve_history_target", props=["C11"])
-    def _(c):
-        c.trusted = "assumed total with no effect on interpreter state: reads self._history (bounded: bounded.c11 checks what it returns)"
-        c.no_runtime = True
-        c.param("history_node", Node).returns(ListSort(Node))
-        c.ens("forall[int](lambda i: implies(0 <= i and i < len(result), result[i] != None))")
-        c.may_raise("Exception")
-
     @w.contract(BI + "_schedule_state_tasks", props=["C08"])
     def _(c):
         c.trusted = "assumed frame: arms timers / starts services of one state (timer and actor tables only); a missing service raises"
